@@ -264,3 +264,22 @@ def mk2(target: address, salt: bytes32) -> (bool, bool):
     ok: bool = create_minimal_proxy_to(target, salt=salt, revert_on_failure=False) != empty(address)
     return ok, not ok
 ''')
+
+# a dead branch holding an external call (unique_symbol marker) under a binop that rewrites: the optimiser's
+# symbol sanity check must not fire (optimizer-symbol-check-stale-set, fixed in /repo 8260fcf)
+_add("dead_extcall", '''
+interface Foo:
+    def bar() -> uint256: nonpayable
+
+K: constant(uint256) = 1
+
+@external
+def f(a: Foo) -> uint256:
+    x: uint256 = (5 if True else extcall a.bar()) | 0
+    return x
+
+@external
+def g(a: Foo, y: uint256) -> uint256:
+    x: uint256 = (y if K == 1 else extcall a.bar()) ^ 0
+    return x & (max_value(uint256) if K == 1 else extcall a.bar())
+''')
